@@ -17,6 +17,7 @@ func (e *Engine) newFuncCtx(u *Unit, fn *ssa.Function, con *Contract, pkgPath st
 	fc.deferRecs = map[deferKey]*deferRec{}
 	fc.inlineStack = map[*ssa.Function]bool{}
 	fc.freshRefs = map[string]bool{}
+	fc.boxed = map[string]string{}
 	fc.model = "int"
 	fc.strmode = "opaque"
 	if con != nil {
